@@ -372,7 +372,8 @@ def run(ctx):
 
     def cfg_key(cfg):
         return (cfg.get("map", 4), cfg["allow"], cfg["sv"], cfg["sr"], cfg["dest"], cfg.get("ncb", 0),
-                cfg.get("fault"), tuple(cfg["natural"]) if cfg.get("natural") else None)
+                cfg.get("fault"), tuple(cfg["natural"]) if cfg.get("natural") else None,
+                tuple(sorted((cfg.get("other") or {}).items())))
 
     # ---- one case: a real save in a fresh directory --------------------------------------------------------------
     pool = {}                    # quick tier: a loaded scenario is reused while no save attempt got as far as mutating it
@@ -383,7 +384,7 @@ def run(ctx):
         seq[0] += 1
         nat = cfg.get("natural")
         pkey = (cfg.get("map", 4), cfg.get("ncb", 0))
-        poolable = ctx.quick and not ctx.replay and not nat
+        poolable = ctx.quick and not ctx.replay and not nat and not cfg.get("other")
         scn = None
         reused = False
         if poolable and not fresh and pkey in pool:
@@ -432,6 +433,9 @@ def run(ctx):
             pre = snapshot(d)
             settings.ALLOW_OVERWRITING_SOURCE = bool(cfg["allow"])
             settings.ENABLE_XS_CHECK_INTEGRATION = bool(nat and nat[0] == "xs")
+            other_saved = {k: getattr(settings, k) for k in (cfg.get("other") or {})}
+            for k, v in (cfg.get("other") or {}).items():          # any OTHER setting at a non-default value
+                setattr(settings, k, v)
             tracer.reset(fault_at=cfg.get("fault"), dest=dest)
             cwd = os.getcwd()
             os.chdir(d)              # a stray relative-path write (error dump, temp file) lands inside the observed directory
@@ -444,6 +448,8 @@ def run(ctx):
                 os.chdir(cwd)
                 settings.ALLOW_OVERWRITING_SOURCE = saved_settings[0]
                 settings.ENABLE_XS_CHECK_INTEGRATION = False
+                for k, v in other_saved.items():
+                    setattr(settings, k, v)
             post = snapshot(d)
             # reuse the object only if the attempt failed before / after the phases that mutate it (callbacks, commit)
             fk = tracer.events[tracer.first_exc_idx][0] if tracer.first_exc_idx is not None else None
@@ -578,8 +584,11 @@ def run(ctx):
         maps = [4]
         ALL12 = [(a, sv, d) for a in (False, True) for sv in (False, True) for d in DEST_STATES]
 
-        def mk(a, sv, d, sr=False, ncb=0, fault=None, natural=None, mp=4):
-            return {"allow": a, "sv": sv, "sr": sr, "dest": d, "ncb": ncb, "fault": fault, "natural": natural, "map": mp}
+        def mk(a, sv, d, sr=False, ncb=0, fault=None, natural=None, mp=4, other=None):
+            c = {"allow": a, "sv": sv, "sr": sr, "dest": d, "ncb": ncb, "fault": fault, "natural": natural, "map": mp}
+            if other:
+                c["other"] = dict(other)
+            return c
 
         # ---- corpus / replay first --------------------------------------------------------------------------------
         for c in ctx.corpus():
@@ -630,6 +639,14 @@ def run(ctx):
             for sr in (False, True):
                 for ncb in (0, 2):
                     queue(run_case(mk(a, sv, d, sr=sr, ncb=ncb), "matrix"))
+
+        # ---- (2a') the same matrix with every OTHER setting at its non-default value (one at a time) -----------------
+        OTHER = [{"SHOW_VARIANT_WARNINGS": False}, {"NOTIFY_UNKNOWN_BYTES": False}, {"ALLOW_DIRTY_RETRIEVER_OVERWRITE": True},
+                 {"PRINT_STATUS_UPDATES": True}]
+        for o in OTHER:
+            for a, sv, d in ALL12:
+                queue(run_case(mk(a, sv, d, ncb=1, other=o), "other-settings"))
+        R.extra["other_settings_explored"] = OTHER
 
         # ---- (2b) injected faults: every event index ---------------------------------------------------------------
         def kind_bounds(res):
